@@ -157,13 +157,13 @@ Proof.
     destruct H as (D1 & D2 & D3). repeat split; congruence.
   - destruct IH as (I1 & I2 & I3). destruct (cse_wf ss Hss patch i i' I1 H) as (C1 & _).
     split; [exact C1|]. split; [|apply Hcats; exact C1].
-    unfold cse in H. destruct (cse_genome gene_cmp (i_gen i)) as [g'|] eqn:E; [|discriminate].
+    unfold cse in H. destruct (cse_genome gene_cmp_mem (i_gen i)) as [g'|] eqn:E; [|discriminate].
     inversion H as [Hi']. cbn [with_gen i_gen]. rewrite <- I2. clear - E. unfold cse_genome in E.
-    destruct (foldO (cse_cell gene_cmp) (cse_loci (rows (i_gen i)) (cats (i_gen i))) (i_gen i, [])) as [st|] eqn:F;
+    destruct (foldO (cse_cell gene_cmp_mem) (cse_loci (rows (i_gen i)) (cats (i_gen i))) (i_gen i, [])) as [st|] eqn:F;
       [|discriminate]. inversion E as [Hg'].
-    assert (G : forall l st st', foldO (cse_cell gene_cmp) l st = Some st' -> rows (fst st') = rows (fst st)).
+    assert (G : forall l st st', foldO (cse_cell gene_cmp_mem) l st = Some st' -> rows (fst st') = rows (fst st)).
     { induction l as [|x l IHl]; intros s s' Hf; cbn [foldO] in Hf; [inversion Hf; reflexivity|].
-      destruct (cse_cell gene_cmp s x) as [s1|] eqn:Ec; [|discriminate]. rewrite (IHl _ _ Hf).
+      destruct (cse_cell gene_cmp_mem s x) as [s1|] eqn:Ec; [|discriminate]. rewrite (IHl _ _ Hf).
       unfold cse_cell in Ec. destruct (cell (fst s) (fst x) (snd x)); [|discriminate].
       destruct (mapO _ _); [|discriminate]. inversion Ec. reflexivity. }
     apply (G _ _ _ F).
